@@ -167,6 +167,10 @@ def write_struct(representation_code: RepresentationCode, value: Any) -> bytes:
         # equal floats do not always share an encoding (0.0 == -0.0): they bypass the cache, which is keyed by equality
         return _write_struct_cached.__wrapped__(representation_code, value)
 
+    if isinstance(value, datetime):
+        # equal naive date-times can denote different instants (they compare equal whatever their 'fold'): no cache either
+        return _write_struct_cached.__wrapped__(representation_code, value)
+
     return _write_struct_cached(representation_code, value)
 
 
